@@ -410,6 +410,7 @@ func (be *BinaryExpression) WriteTo(cw *CodeWriter) {
 
 	cw.WriteSpace()
 	cw.WriteLeadingComments(be.Token.LeadingComments)
+	cw.SeparateOperator(be.Operator)
 	cw.AddMapping(be.Token.Start)
 	cw.WriteString(be.Operator)
 	cw.WriteSpace()
@@ -438,6 +439,7 @@ type UnaryExpression struct {
 
 func (ue *UnaryExpression) WriteTo(cw *CodeWriter) {
 	cw.WriteLeadingComments(ue.Token.LeadingComments)
+	cw.SeparateOperator(ue.Operator)
 	cw.AddMapping(ue.Token.Start)
 	cw.WriteString(ue.Operator)
 	// Right side needs parens if its precedence is lower than unary
